@@ -118,6 +118,11 @@ func VerifC16CanonName() {
 
 func VerifC16CanonIdempotent() {
 	s := vBytes("s", vParam("n"))
+	// names are made of [A-Za-z0-9._-]; anything else is not a name at all
+	for i := 0; i < len(s); i++ {
+		b := s[i]
+		vAssume(vOr(vOr(vAnd('a' <= b, b <= 'z'), vAnd('A' <= b, b <= 'Z')), vOr(vAnd('0' <= b, b <= '9'), vOr(vOr(b == '-', b == '_'), b == '.'))))
+	}
 	c := CanonPackageName(s)
 	vCover(true, "canon computed")
 	vAssert(CanonPackageName(c) == c, "name normalisation is idempotent")
